@@ -2,7 +2,7 @@
    A skeleton keeps: calls (with the arguments of file-system calls), failure exits, lock / unlock,
    channel send / receive / close / range, map delete, assignments to fields, the branching structure
    (conditions as source text), go / defer.  It drops logging, hooks and pure local computation. *)
-From Coq Require Import List String Bool.
+From Coq Require Import List String Bool Ascii.
 Import ListNotations.
 
 Inductive stm : Type :=
@@ -15,6 +15,7 @@ Inductive stm : Type :=
 | SClose (ch : string)
 | SDelete (m : string)
 | SAssign (lhs : string)
+| SRead (rhs : string)
 | SReturn (vals : string)
 | SBranch (tok : string)
 | SUnknown (src : string)
@@ -48,6 +49,7 @@ Section Eq.
     | SClose c, SClose d => String.eqb c d
     | SDelete c, SDelete d => String.eqb c d
     | SAssign c, SAssign d => String.eqb c d
+    | SRead c, SRead d => String.eqb c d
     | SReturn c, SReturn d => String.eqb c d
     | SBranch c, SBranch d => String.eqb c d
     | SUnknown c, SUnknown d => String.eqb c d
@@ -114,3 +116,40 @@ Definition call_before (f g : string) (l : list stm) : bool :=
   | Some i, Some j => Nat.ltb i j
   | _, _ => false
   end.
+
+(* ---- lock discipline on a skeleton: every statement that touches a guarded object lies inside a region in which the
+   mutex `m` is held (between SLock m and SUnlock m, or after SLock m when the unlock is deferred) ---- *)
+Fixpoint str_prefix (p s : string) : bool :=
+  match p, s with
+  | EmptyString, _ => true
+  | String a p', String b s' => Ascii.eqb a b && str_prefix p' s'
+  | _, _ => false
+  end.
+Fixpoint str_contains (needle hay : string) : bool :=
+  match hay with
+  | EmptyString => match needle with EmptyString => true | _ => false end
+  | String _ r => str_prefix needle hay || str_contains needle r
+  end.
+
+Fixpoint touches (obj : string) (s : stm) : bool :=
+  let fix any (l : list stm) : bool := match l with [] => false | h :: r => touches obj h || any r end in
+  match s with
+  | SAssign x | SRead x | SDelete x => str_contains obj x
+  | SRange x b | SRangeCh x b => str_contains obj x || any b
+  | SIf c t e => str_contains obj c || any t || any e
+  | SFor c b => str_contains obj c || any b
+  | SBlock b | SLoop b | SFunc _ b => any b
+  | SCall f => str_contains obj f
+  | _ => false
+  end.
+
+(* walks a statement list; `held` is whether m is held on entry; returns None when an access happens without the lock *)
+Fixpoint guarded_from (m obj : string) (held : bool) (l : list stm) : bool :=
+  match l with
+  | [] => true
+  | SLock n :: r => if String.eqb n m then guarded_from m obj true r else guarded_from m obj held r
+  | SUnlock n :: r => if String.eqb n m then guarded_from m obj false r else guarded_from m obj held r
+  | SDefer _ :: r => guarded_from m obj held r
+  | s :: r => (held || negb (touches obj s)) && guarded_from m obj held r
+  end.
+Definition guarded (m obj : string) (l : list stm) : bool := guarded_from m obj false l.
